@@ -1,6 +1,7 @@
 package main
 
 import (
+	"fmt"
 	"sort"
 
 	"github.com/hashicorp/raft"
@@ -525,4 +526,67 @@ func init() {
 	for _, b := range []string{"write3", "crash3", "snap3", "stale-suffix", "transfer"} {
 		regScenario(b+"-pipe", pipe(b))
 	}
+}
+
+func init() {
+	// commit-tracking log store with RestoreCommittedLogs: committed entries are replayed into the FSM by NewRaft
+	mkRCL := func(n int, snapshot bool, many bool) func() *Scenario {
+		return func() *Scenario {
+			steps := []Step{stepApplyLeader("apply1"), stepApplyLeader("apply2")}
+			if snapshot {
+				steps = append(steps, stepDo("user-snapshot", whenSettled, func(w *World) { w.snapshot(w.leader()) }))
+			}
+			steps = append(steps, stepApplyLeader("apply3"))
+			if many {
+				for i := 0; i < 4; i++ {
+					steps = append(steps, stepApplyLeader("applyN"))
+				}
+			}
+			steps = append(steps,
+				stepDo("crash-all", whenSettled, func(w *World) {
+					for _, nd := range w.nodes {
+						w.crash(nd)
+					}
+				}),
+				stepDo("restart-all", nil, func(w *World) {
+					for _, nd := range w.nodes {
+						w.start(nd)
+					}
+				}),
+				stepDo("apply-after-restart", whenSettled, func(w *World) { w.apply(w.leader(), 0) }),
+			)
+			return &Scenario{Nodes: voters(n), Store: StoreCommitTracking, RCL: true, Devs: DevAll, Horizon: 600, Goal: goalConverged, AutoRestart: true,
+				Conf:  func(i int, c *raft.Config) { c.MaxAppendEntries = 1; c.TrailingLogs = 64 },
+				Steps: steps}
+		}
+	}
+	regScenario("rcl1", mkRCL(1, false, false))
+	regScenario("rcl3", mkRCL(3, false, false))
+	regScenario("rcl3-snap", mkRCL(3, true, false))
+	regScenario("rcl1-many", mkRCL(1, true, true))
+}
+
+func init() {
+	// more committed entries than the FSM queue holds: NewRaft replays them before runFSM exists
+	regScenario("rcl1-130", func() *Scenario {
+		return &Scenario{Nodes: voters(1), Store: StoreCommitTracking, RCL: true, Devs: DevCrash | DevStore, Horizon: 400, Goal: goalConverged, AutoRestart: true,
+			Conf: func(i int, c *raft.Config) { c.MaxAppendEntries = 1; c.TrailingLogs = 1000 },
+			Steps: []Step{
+				stepDo("apply-130", whenSettled, func(w *World) {
+					l := w.leader()
+					w.client(l, "apply-many", "", func(c *Call, r *raft.Raft) {
+						for i := 0; i < 130; i++ {
+							f := r.Apply([]byte(fmt.Sprintf("m%d", i)), 0)
+							if err := f.Error(); err != nil {
+								c.Err = err
+								return
+							}
+						}
+					})
+				}),
+				stepDo("crash", whenSettled, func(w *World) { w.crash(w.nodes[0]) }),
+				stepDo("restart", nil, func(w *World) { w.start(w.nodes[0]) }),
+				stepDo("apply-after-restart", whenSettled, func(w *World) { w.apply(w.leader(), 0) }),
+			}}
+	})
 }
